@@ -194,15 +194,23 @@ func levelOf(p string) string {
 }
 
 func runWorker(prop, tier string, seed uint64, w, W int, outPrefix, knownPath string, scale int, bin ...string) (int, string) {
-	exe, limit := simTest, "ulimit -v 5242880; "
+	exe, limit, platform := simTest, "ulimit -v 5242880; ", ""
 	if len(bin) > 0 && bin[0] != "" {
 		exe, limit = bin[0], "" // a 32-bit process cannot exceed its address space anyway
+		platform = "386"
+	}
+	if len(bin) > 1 && bin[1] != "" {
+		// the platform leg also narrows the CPU affinity: runtime.NumCPU() is part of the environment too
+		if _, err := exec.LookPath("taskset"); err == nil {
+			exe = "taskset -c " + bin[1] + " " + exe
+			platform += "+cpus" + bin[1]
+		}
 	}
 	cmd := exec.Command("bash", "-c", limit+"exec "+exe+" -test.run '^TestWorker$' -test.timeout 6h -test.count 1")
 	cmd.Env = append(goEnv(),
 		"VERIF_PROP="+prop, "VERIF_TIER="+tier, "VERIF_SEED="+strconv.FormatUint(seed, 10),
 		"VERIF_WORKER="+strconv.Itoa(w), "VERIF_WORKERS="+strconv.Itoa(W), "VERIF_OUT="+outPrefix,
-		"VERIF_KNOWN="+knownPath, "VERIF_SCALE_PCT="+strconv.Itoa(scale), "GOMAXPROCS=1")
+		"VERIF_KNOWN="+knownPath, "VERIF_SCALE_PCT="+strconv.Itoa(scale), "GOMAXPROCS=1", "VERIF_PLATFORM="+platform)
 	out, err := cmd.CombinedOutput()
 	code := 0
 	if err != nil {
@@ -232,9 +240,15 @@ func replayBinary(path string) (string, string) {
 	if b, err := os.ReadFile(path); err == nil {
 		json.Unmarshal(b, &rf)
 	}
-	if rf.Config.Arch == "386" {
+	if strings.HasPrefix(rf.Config.Arch, "386") {
 		if _, err := os.Stat(simTest386); err == nil {
-			return simTest386, ""
+			exe := simTest386
+			if i := strings.Index(rf.Config.Arch, "+cpus"); i >= 0 {
+				if _, err := exec.LookPath("taskset"); err == nil {
+					exe = "taskset -c " + rf.Config.Arch[i+5:] + " " + exe
+				}
+			}
+			return exe, ""
 		}
 	}
 	return simTest, "ulimit -v 5242880; "
@@ -411,7 +425,7 @@ func main() {
 				results[w] = wres{code, out}
 				return
 			}
-			code, out := runWorker(prop, tier, seed, (w-W)*W+3, 4*W, prefixes[w], knownPath, scale, simTest386)
+			code, out := runWorker(prop, tier, seed, (w-W)*W+3, 4*W, prefixes[w], knownPath, scale, simTest386, []string{"0", "0-1", "0-2", "0-4"}[(w-W)%4])
 			results[w] = wres{code, out}
 		}(w)
 	}
@@ -539,7 +553,7 @@ func main() {
 	extra := map[string]any{}
 	if W > Wmain {
 		extra["platform_leg"] = map[string]any{"goarch": "386", "workers": W - Wmain, "share_of_plan": fmt.Sprintf("%d/%d", W-Wmain, 4*Wmain),
-			"what": "the same simulator built for GOARCH=386 (32-bit int, 4-octet alignment of 64-bit words) executes this share of the plan; its findings replay in the 386 binary"}
+			"what": "the same simulator built for GOARCH=386 (32-bit int, 4-octet alignment of 64-bit words) executes this share of the plan, each of its workers confined to 1, 2, 3 or 5 CPUs (runtime.NumCPU); its findings replay in the 386 binary under the same affinity"}
 	}
 	if prop == "C13" {
 		lines = append(lines, raceLeg(tier, seed, known, stats, extra)...)
